@@ -28,7 +28,7 @@ structure LexState where
 
 /-- One call of the `from_fn` closure (lex.rs:36-96): the token, the new state, the remaining input. -/
 def lexStep (st : LexState) (c : Char) (rest : Str) : Tok × LexState × Str :=
-  if c == ':' && st.colon == 0 then
+  if c == ':' && st.colon == 0 && st.indent == 0 then
     ((.COLON, [c]), { st with colon := st.colon + 1 }, rest)
   else if isNewline c then
     ((.NEWLINE, [c]), { sol := true, colon := 0, indent := 0 }, rest)
